@@ -98,6 +98,7 @@ type Job struct {
 	KnownHits    map[string]int64
 	NativeRuns   int64
 	Digests      []string
+	Events       []Event // vos event trace of the (single) concrete run: environment differential
 }
 
 type Worker struct {
@@ -803,6 +804,9 @@ func (j *Job) merge(r *Run) {
 	}
 	if len(r.digests) > 0 {
 		j.Digests = r.digests
+	}
+	if j.Concrete != nil && r.vos != nil {
+		j.Events = append([]Event(nil), r.vos.events...)
 	}
 	j.Obligations += r.obligations
 	j.Discharged += r.discharged
